@@ -93,6 +93,16 @@ def Cache.writes {α : Type} (c : Cache α) : List (String × α × Nat) → Cac
   | [] => c
   | (k, v, exp) :: ws => Cache.writes (fun k' => if k' = k then some (v, exp) else c k') ws
 
+/-- NOT the code: a `Get` that evicts the expired entry it finds ("evict on read").  The real
+    `Cache.Get` only reads — in the model `Cache.get` returns an answer and no cache, so every read
+    operation of the coordinator (`shouldTransmit`, `shouldProcess`, the filters) is read-only by
+    construction.  This variant exists to state what would go wrong otherwise
+    (Props/C06 `evicting_get_atomic_invisible`, `evict_on_read_race_drops_fresh_record`). -/
+def Cache.getEvict {α : Type} (c : Cache α) (k : String) (now : Nat) : Option α × Cache α :=
+  match c k with
+  | none => (none, c)
+  | some (v, exp) => if expired exp now then (none, fun k' => if k' = k then none else c k') else (some v, c)
+
 /-! ### coordinator state -/
 
 /-- `common.PerformEvent` (UnknownEvent = 0, PerformEvent = 1, StaleReportEvent = 2,
